@@ -375,6 +375,8 @@ class Unord:
             if not allts:
                 continue
             if m in PICKS and (c.trait or "").endswith("Iterator") or (m in ("first", "last") and "slice" in p):
+                if m in ("for_each", "try_for_each") and self._closure_effects_commutative(fn, c):
+                    continue        # a loop body in closure form whose only effects are keyed map updates: order irrelevant
                 for s in sorted(allts):
                     self._event("U-PICK", fn, c, s, "order-sensitive consumer %s of an unordered sequence" % m)
             if STORE_RE.search(p) and not (KEYED_COMMUTATIVE_RE.search(p) and not any(arg_ts[2:] if len(arg_ts) > 2 else [])):
@@ -481,6 +483,28 @@ class Unord:
             d = {"callee": p, "kind": kind, "line": c.line}
             if d not in info["effects"]:
                 info["effects"].append(d)
+
+    def _closure_effects_commutative(self, fn, c):
+        """every closure literal handed to this call has only keyed-commutative mutable effects (and at least one closure is known)"""
+        cls = [self.F.fns.get(x) for x in ((c.func or {}).get("arg_cl") or [])]
+        if not cls or any(x is None for x in cls):
+            return False
+        for cl in cls:
+            for cc in self._mut_calls(cl):
+                pp = cc.target_path or ""
+                if KEYED_COMMUTATIVE_RE.search(pp):
+                    continue
+                if (self._helper_effect(cc) or "") == "keyed-commutative":
+                    continue
+                return False
+            # no direct stores through captured references either
+            for b in cl.blocks:
+                if b.get("cleanup"):
+                    continue
+                for st in b["stmts"]:
+                    if st["k"] == "assign" and "*" in (st["lhs"].get("p") or []):
+                        return False
+        return True
 
     def _mut_calls(self, g):
         out = []
